@@ -32,7 +32,7 @@ GATES = {
     "zero_variance_window": 1,
     "width_equals_window": 1,
     "right_volume_checked": 5,
-    "multiband": 2,
+    "multiband": 2, "right_bands_in_another_order": 1,
     "roi_offset_coordinates": 2,
     "costs_compared": 100000,
 }
@@ -163,11 +163,17 @@ def build(case, ctx):
         disp = (a, b)
         rdisp = None
     left = gen.make_dataset(l, disp, lm, row0=row0, col0=col0)
-    right = gen.make_dataset(r, rdisp, rm, row0=row0, col0=col0)
+    rbands = None
+    if bands > 1 and (what == "multiband" or rng.random() < 0.5):
+        # the right image stores the same named bands in another order
+        perm = [int(x) for x in np.roll(np.arange(bands), 1 + int(rng.integers(0, bands - 1)))]
+        r = r[perm]
+        rbands = [gen.BAND_NAMES[i] for i in perm]
+    right = gen.make_dataset(r, rdisp, rm, row0=row0, col0=col0, bands=rbands)
     desc = {
         "method": method, "window": w, "subpix": subpix, "shape": [rows, cols], "texture": tex, "bands": bands,
         "band": band, "left_mask": lmk, "right_mask": rmk, "interval": ikind, "col0": col0, "row0": row0,
-        "validation": validation,
+        "validation": validation, "right_bands": rbands,
         "disp": [int(np.min(disp[0])), int(np.max(disp[1]))],
     }
     return desc, left, right, band
@@ -262,7 +268,7 @@ def run_case(case, ctx):
     # reference
     bi = 0 if band is None else list(lcopy.coords["band_im"].data).index(band)
     L = lcopy["im"].data if lcopy["im"].ndim == 2 else lcopy["im"].data[bi]
-    R = rcopy["im"].data if rcopy["im"].ndim == 2 else rcopy["im"].data[bi]
+    R = rcopy["im"].data if rcopy["im"].ndim == 2 else rcopy["im"].data[list(rcopy.coords["band_im"].data).index(band)]
     lmsk = lcopy["msk"].data if "msk" in lcopy else None
     rmsk = rcopy["msk"].data if "msk" in rcopy else None
     dmin = lcopy["disparity"].sel(band_disp="min").data
@@ -284,6 +290,7 @@ def run_case(case, ctx):
     ctx.gate("grid_with_non_integer_bounds", int(desc["interval"] == "grid-float"))
     ctx.gate("width_equals_window", int(cols == w))
     ctx.gate("multiband", int(desc["bands"] > 1))
+    ctx.gate("right_bands_in_another_order", int(bool(desc["right_bands"])))
     ctx.gate("roi_offset_coordinates", int(desc["col0"] > 0))
     if rmsk is not None and subpix > 1 and (rmsk == 1).any():
         ctx.gate("nodata_in_right_window_fractional")
